@@ -696,7 +696,7 @@ func TestC40(t *testing.T) {
 		r.Event("bursts", 1)
 	})
 	// near-cap rounds run on their own: their spinning goroutines need the cores
-	nNear := r.N(1500, 10_000)
+	nNear := r.N(1500, 6_000)
 	runNearCap(r, nSeq+nBurst+nExp+1, nNear)
 	bg.Wait()
 	r.Event("lb_chosen_points", int(chosen.Load()))
